@@ -34,6 +34,8 @@ carries the fragment's spelling, which differs only by these rules):
   N3  named return `-> (r: T)`  ==  `-> T`                     (Verus syntax for naming the result)
   N4  `debug_assert!(c, ..)` / `assert!(c, ..)` -> `assert(c)`; `*_eq!(a,b,..)` -> `assert(a == b)`;
       `*_ne!` -> `assert(a != b)`                              (DESIGN D2/D3, strengthening)
+  N6  inside `trait_template! { .. }` (src/visit/macros.rs re-emits the wrapped trait verbatim) the markers
+      `@section <ident>` and `@escape [..]` are dropped                      (DESIGN D7)
   N5  a trailing comma before `)`/`}`/`]` and a `;` after a block-like R region are not
       significant (token-level: `,` immediately before a closer or before `{` (where-clause) is dropped)
 """
@@ -42,9 +44,9 @@ import re, sys, os, json, difflib, hashlib
 # --------------------------------------------------------------------------- tokenizer
 
 class Tok:
-    __slots__ = ("text", "start", "end", "kind", "region")
-    def __init__(self, text, start, end, kind="tok", region=None):
-        self.text, self.start, self.end, self.kind, self.region = text, start, end, kind, region
+    __slots__ = ("text", "start", "end", "kind", "region", "render")
+    def __init__(self, text, start, end, kind="tok", region=None, render=None):
+        self.text, self.start, self.end, self.kind, self.region, self.render = text, start, end, kind, region, render
     def __repr__(self):
         return "Tok(%r,%s)" % (self.text, self.kind)
 
@@ -178,23 +180,42 @@ def normalise(toks, stats=None):
             out.append(t)
             out.extend(normalise(toks[i+4:j], stats))
             i = j + 1; bump("N3"); continue
-        # N4 assertion macros
+        # N4 assertion macros -> ONE atomic token `assert ( cond )`; when the repository side has to be rendered for
+        # Verus it becomes `{ let __c: bool = cond; assert(__c); }` (the condition is evaluated as exec code, then proved)
+        def atomic(cond_toks, first, last):
+            cond = normalise(cond_toks, stats)
+            txt = "assert ( " + " ".join(x.text for x in cond) + " )"
+            rend = "{ let __c: bool = " + " ".join(render_src(cond)) + "; assert(__c); }"
+            return Tok(txt, first.start, last.end, "tok", first.region, rend)
         if tx in ASSERT_MACROS and i + 2 < n and toks[i+1].text == "!" and toks[i+2].text == "(":
             j = match_close(toks, i + 2)
             args = split_top_commas(toks[i+3:j])
             op = ASSERT_MACROS[tx]
-            new = [Tok("assert", t.start, t.end, "tok", t.region), Tok("(", t.start, t.end, "tok", t.region)]
             if op is None:
-                new += normalise(args[0], stats)
+                cond = list(args[0])
             else:
-                new += normalise(args[0], stats) + [Tok(op, t.start, t.end, "tok", t.region)] + normalise(args[1], stats)
-            new.append(Tok(")", toks[j].start, toks[j].end, "tok", toks[j].region))
-            # the synthesised group must be replaced as a whole: give every token the whole span
-            for k in new:
-                k.start, k.end = t.start, toks[j].end
-            new[0].text = "assert"
-            out.extend(new)
+                cond = list(args[0]) + [Tok(op, t.start, t.end, "tok", t.region)] + list(args[1])
+            out.append(atomic(cond, t, toks[j]))
             i = j + 1; bump("N4"); continue
+        if tx == "assert" and i + 1 < n and toks[i+1].text == "(":
+            j = match_close(toks, i + 1)
+            out.append(atomic(toks[i+2:j], t, toks[j]))
+            i = j + 1; continue
+        if tx == "{" and i + 6 < n and toks[i+1].text == "let" and toks[i+2].text == "__c" and toks[i+3].text == ":" and toks[i+4].text == "bool" and toks[i+5].text == "=":
+            j = match_close(toks, i)
+            k = i + 6
+            while k < j and toks[k].text != ";":
+                k = match_close(toks, k) + 1 if toks[k].text in OPEN else k + 1
+            if [x.text for x in toks[k:j]] == [";", "assert", "(", "__c", ")", ";"]:
+                out.append(atomic(toks[i+6:k], t, toks[j]))
+                i = j + 1
+                # a `;` directly after the block is part of the statement form of the macro
+                continue
+        # N6 trait_template markers
+        if tx == "@" and i + 2 < n and toks[i+1].text == "section" and IDENT.fullmatch(toks[i+2].text):
+            i += 3; bump("N6"); continue
+        if tx == "@" and i + 2 < n and toks[i+1].text == "escape" and toks[i+2].text == "[":
+            i = match_close(toks, i + 2) + 1; bump("N6"); continue
         # N5 trailing comma
         if tx == "," and i + 1 < n and (toks[i+1].text in CLOSE or toks[i+1].text == "{"):
             i += 1; continue
@@ -241,6 +262,12 @@ class SourceFile:
                 if toks[j-1].text == "extern" and j < hi and toks[j].text.startswith('"'):
                     j += 1
             if j >= hi: break
+            if toks[j].text == "trait_template" and j + 2 < hi and toks[j+1].text == "!" and toks[j+2].text == "{":
+                # D7b: the macro re-emits the trait it wraps (minus @section/@escape markers, see N6)
+                c = match_close(toks, j + 2)
+                self._scan(j + 3, c, container)
+                i = c + 1
+                continue
             kw = toks[j].text
             if kw in ("fn", "struct", "enum", "trait", "impl", "mod", "type", "const", "static", "use", "macro_rules", "union"):
                 # find end: first top-level `;` or `{...}` group
@@ -445,10 +472,11 @@ def render_src(toks):
     out = []
     prev = None
     for t in toks:
-        if prev is not None and prev.end == t.start and prev.kind == "tok" and not (prev.start == t.start):
-            out[-1] = out[-1] + t.text
+        txt = t.render if t.render is not None else t.text
+        if prev is not None and prev.end == t.start and prev.kind == "tok" and not (prev.start == t.start) and t.render is None and prev.render is None:
+            out[-1] = out[-1] + txt
         else:
-            out.append(t.text)
+            out.append(txt)
         prev = t
     return out
 
